@@ -79,10 +79,14 @@ func HarnessC20Algebra() {
 		rs[i] = c20New(pooled)
 		ms[i] = &refResult{}
 	}
-	rs[2].AddErrors(c20Err(0))
-	rs[2].AddWarnings(c20Err(1))
+	// the operand-only result holds three errors and three warnings added one at a time
+	// (so that its slices have spare capacity, as results built by validators do)
+	for _, id := range []int{0, 1, 2} {
+		rs[2].AddErrors(c20Err(id))
+		rs[2].AddWarnings(c20Err(id))
+	}
 	rs[2].Inc()
-	ms[2] = &refResult{errs: []int{0}, warns: []int{1}, matches: 1}
+	ms[2] = &refResult{errs: []int{0, 1, 2}, warns: []int{0, 1, 2}, matches: 1}
 	var nilRes *Result
 	verifAssert(nilRes.IsValid() && !nilRes.HasErrors() && !nilRes.HasWarnings() && !nilRes.HasErrorsOrWarnings(), "nil-result-queries")
 	for step := 0; step < steps; step++ {
@@ -132,9 +136,15 @@ func HarnessC20Algebra() {
 		}
 		verifAssert(c20Same(rs[0], ms[0]) && c20Same(rs[1], ms[1]) && c20Same(rs[2], ms[2]), "result-equals-ordered-set-model")
 	}
-	// no aliasing: later changes to an operand never alter a result it was merged into
+	// no aliasing: the observed result takes one more message of its own, then every operand is
+	// changed; neither may alter what the observed result holds
 	if !pooled {
 		keep := verifChoose(2)
+		c20Msgs = append(c20Msgs[:3:3], "own")
+		rs[keep].AddErrors(stderrors.New("own"))
+		rs[keep].AddWarnings(stderrors.New("own"))
+		ms[keep].errs = refAdd(ms[keep].errs, 3)
+		ms[keep].warns = refAdd(ms[keep].warns, 3)
 		for i := range rs {
 			if i != keep {
 				rs[i].AddErrors(stderrors.New("late"))
